@@ -31,6 +31,7 @@ RefStep(rs, e) ==
          IF e.outcome = "ok"
          THEN E(~Cut(x), E(e.n = x.n /\ e.ok, rs, "C17/Body/delivered-body-differs"),
                 "C17/Body/short-body-reported-as-success/" \o x.framing)
+         ELSE IF e.outcome = "hang" THEN E(Cut(x), rs, "C17/Body/complete-body-never-delivered")
          ELSE E(Cut(x) \/ x.bad, rs, "C17/Body/complete-body-reported-as-error")
     [] e.ev = "Fail" -> Rej("C17/Fail/exchange-failed-although-the-server-answered", "")
     [] e.ev = "Panic" -> Rej("C19/Panic", "")
